@@ -2,7 +2,7 @@
 //! default 2 MiB stack and prints `count=<n>`. The exit status is the observation:
 //! 0 = returned normally, 101 = panic, signal = stack exhaustion / abort.
 //!
-//! usage: drain <flop: 3 card texts concatenated> [scope:<tf>,<rf>,<tt>,<rt>] <range-spec>...
+//! usage: drain <flop: 3 card texts concatenated> [scope:<tf>,<rf>,<tt>,<rt>] [via:for|count|nth|skip|last|fold] <range-spec>...
 //!   range-spec:  empty | text:<range notation> | first:<N> | firstnot:<card>:<N> | list:<AsKs,AsQd,...>
 //! This crate is built with the stock dev and release profiles and nothing else.
 
@@ -70,6 +70,11 @@ fn main() {
         scope = Some((v[0], v[1], v[2], v[3]));
         rest = &rest[1..];
     }
+    let mut via = "for".to_string();
+    if let Some(v) = rest.first().and_then(|a| a.strip_prefix("via:")) {
+        via = v.to_string();
+        rest = &rest[1..];
+    }
     let players: Vec<HandRange> = rest.iter().map(|s| range_of(s)).collect();
     // the property names the default 2 MiB thread stack
     let h = std::thread::Builder::new()
@@ -79,9 +84,25 @@ fn main() {
             if let Some((a, b, c, d)) = scope {
                 evaluator.scope(a, b, c, d);
             }
+            // "iterating the evaluator to the end" through each of the consuming methods of Iterator
             let mut n: u64 = 0;
-            for _showdown in evaluator {
-                n += 1;
+            match via.as_str() {
+                "count" => n = evaluator.into_iter().count() as u64,
+                "nth" => {
+                    let mut it = evaluator.into_iter();
+                    if it.nth(1).is_some() {
+                        n = 2;
+                    }
+                    n += it.count() as u64;
+                }
+                "skip" => n = evaluator.into_iter().skip(2).count() as u64,
+                "last" => n = evaluator.into_iter().last().is_some() as u64,
+                "fold" => n = evaluator.into_iter().fold(0u64, |a, _| a + 1),
+                _ => {
+                    for _showdown in evaluator {
+                        n += 1;
+                    }
+                }
             }
             n
         })
